@@ -238,3 +238,58 @@ func H_c14_session() {
 	symAssert(strings.Contains(seq, "|DISCONNECT"), "close-disconnects")
 	symReach("end")
 }
+
+// C14 K6: accepting an inbound ARQ connection — LISTEN enabled, the TNC
+// announces TARGET then CONNECTED; a CONNECTED without a preceding TARGET is
+// not an incoming call.  The accepted connection reports both callsigns,
+// delivers ARQ payloads in order, frames what is written, disconnects on Close.
+func H_c14_accept() {
+	emu := &emuARDOP{toHost: make(chan []byte, 256), faults: symInt(0, 1)}
+	tnc, err := Open(emu, "N0CALL", "JP20QE")
+	symAssert(err == nil && tnc != nil, "open-ok")
+	ln, err := tnc.Listen()
+	symAssert(err == nil && ln != nil, "listen-ok")
+	target := [...]string{"N0CALL", "N0CALL-5"}[symInt(0, 1)] // the call the remote station asked for (own call or an auxiliary one)
+	stray := symInt(0, 1) == 1
+	go func() {
+		if stray {
+			emu.say("CONNECTED N9XXX 500") // not preceded by TARGET: not an incoming call
+			emu.say("DISCONNECTED")
+		}
+		emu.say("TARGET " + target)
+		emu.say("NEWSTATE IRS")
+		emu.say("CONNECTED N1CALL 500")
+	}()
+	conn, err := ln.Accept()
+	symAssert(err == nil && conn != nil, "accept-ok")
+	symAssert(strings.Contains(conn.RemoteAddr().String(), "N1CALL"), "accepted-connection-reports-the-remote-callsign")
+	symAssert(strings.Contains(conn.LocalAddr().String(), target), "accepted-connection-reports-the-called-callsign")
+	in1, in2 := symBytes(symInt(1, 3)), symBytes(symInt(0, 2))
+	emu.sayData(in1)
+	if len(in2) > 0 {
+		emu.sayData(in2)
+	}
+	want := append(append([]byte(nil), in1...), in2...)
+	bufsz := symInt(1, 4)
+	var got []byte
+	for len(got) < len(want) {
+		b := make([]byte, bufsz)
+		k, err := conn.Read(b)
+		symAssert(err == nil, "read-ok")
+		got = append(got, b[:k]...)
+	}
+	symAssert(bytes.Equal(got, want), "read-yields-the-concatenated-arq-payloads-in-order")
+	p := symBytes(symInt(1, symParam("P", 3)))
+	n, err := conn.Write(p)
+	symAssert(err == nil && n == len(p), "write-returns-bytes-accepted")
+	if f, ok := conn.(interface{ Flush() error }); ok {
+		symAssert(f.Flush() == nil, "flush-ok")
+	}
+	symAssert(conn.Close() == nil, "close-ok")
+	symAssert(emu.bad == "", "every-host-frame-well-formed (prefix, CR, big-endian length, CRC)")
+	symAssert(bytes.Equal(emu.dataIn, p), "tnc-received-the-written-bytes")
+	seq := strings.Join(emu.cmds, "|")
+	symAssert(strings.Contains(strings.ToUpper(seq), "|LISTEN TRUE"), "listen-enabled")
+	symAssert(strings.Contains(seq, "|DISCONNECT"), "close-disconnects")
+	symReach("end")
+}
